@@ -28,7 +28,7 @@ ASSUMPTIONS = [
     "reference interpreter decides which elements are top-level of which instance",
     "django mode + `only`: echo of the owner's id inside fill content is not predicted",
 ]
-BOUNDS = {"quick": {"programs": 6400, "depths": [1, 2, 50, 200]}, "thorough": {"programs": 80000, "depths": [1, 2, 3, 50, 200, 500, 1000, 2000]}}
+BOUNDS = {"quick": {"programs": 6400, "depths": [1, 2, 50, 200], "loop_depths": [1, 50, 700]}, "thorough": {"programs": 80000, "depths": [1, 2, 3, 50, 200, 500, 1000, 2000], "loop_depths": [1, 50, 700, 2000]}}
 CFG = {"elems": True, "idecho": True, "errors": False, "isfilled": False, "max_nodes": 4}
 
 
@@ -159,18 +159,28 @@ def check_chain(case, col=None):
             with env.components_settings(context_behavior=mode):
 
                 class Chain(Component):
-                    template = '{% if n %}{% component "chain" n=rest / %}{% else %}<div data-m="leaf" data-echo="{{ myid }}">x</div><br data-m="v">{% endif %}text'
+                    template = (
+                        '{% if n %}{% for one in once %}{% component "chain" n=rest once=once / %}{% endfor %}{% else %}<div data-m="leaf" data-echo="{{ myid }}">x</div><br data-m="v">{% endif %}text'
+                        if case.get("loops")
+                        else '{% if n %}{% component "chain" n=rest / %}{% else %}<div data-m="leaf" data-echo="{{ myid }}">x</div><br data-m="v">{% endif %}text'
+                    )
 
-                    def get_context_data(self, n=""):
+                    def get_context_data(self, n="", once="x"):
                         seen.append(self.id)
-                        return {"n": n, "rest": n[1:], "myid": self.id}
+                        return {"n": n, "rest": n[1:], "myid": self.id, "once": once}
 
                 registry.register("chain", Chain)
+                import sys
+
+                limit = sys.getrecursionlimit()
+                sys.setrecursionlimit(1000)  # CPython's default: "no recursion limit" is judged where a user would hit it
                 try:
                     out = Template('{% component "chain" n=n / %}').render(Context({"n": "x" * d}))
                 except Exception as e:  # noqa
-                    fails.append(("[%s] chain depth %d raised %r" % (mode, d, e), "c14-chain-exc:" + exc_bucket(e)))
+                    fails.append(("[%s] chain depth %d%s raised %r" % (mode, d, " (one {% for %} per level)" if case.get("loops") else "", str(e)[:300]), "c14-chain-exc:" + exc_bucket(e)))
                     continue
+                finally:
+                    sys.setrecursionlimit(limit)
             elems = parse_real(out)
             markers = [e[0] for e in elems]
             if markers != ["leaf", "v"]:
@@ -190,7 +200,58 @@ def check_chain(case, col=None):
             env.patch_ids(True)
             env.reset()
         if col is not None:
-            col.case(jhash(["chain", d, mode]), d >= 50, sample={"chain_depth": d, "mode": mode} if d >= 50 else None, labels=("chain", "mode:" + mode))
+            col.case(jhash(["chain", d, mode, bool(case.get("loops"))]), d >= 50, sample={"chain_depth": d, "mode": mode, "loop_at_every_level": bool(case.get("loops"))} if d >= 50 else None, labels=("chain_in_loops" if case.get("loops") else "chain", "mode:" + mode))
+    return fails
+
+
+def check_reentrant(case, col=None):
+    """A component that renders ITSELF again from get_context_data (same instance, re-entrant render) and reads
+    Component.id afterwards: every element must echo the id it carries; ids distinct."""
+    from django.template import Context, Template
+
+    from django_components import Component, registry
+
+    fails = []
+    levels = case["levels"]
+    for mode in ("django", "isolated"):
+        env.reset()
+        with env.components_settings(context_behavior=mode):
+
+            class Re(Component):
+                template = '<div data-m="r{{ depth }}" data-echo="{{ myid }}">{{ inner|safe }}<i data-m="i{{ depth }}">x</i></div>'
+
+                def get_context_data(self, depth=0):
+                    inner = ""
+                    if depth < levels:
+                        inner = self.render(kwargs={"depth": depth + 1}, render_dependencies=False)
+                    return {"myid": self.id, "depth": depth, "inner": inner}  # id read AFTER the nested render returned
+
+            registry.register("re", Re)
+            try:
+                how = case.get("how", 0)
+                if how == 0:
+                    out = Template('{% component "re" depth=0 / %}').render(Context({}))
+                else:
+                    out = Re.render(kwargs={"depth": 0}, render_dependencies=False)
+            except Exception as e:  # noqa
+                fails.append(("[%s] re-entrant render raised %r" % (mode, e), "c14-reentrant-exc:" + exc_bucket(e)))
+                continue
+        elems = [e for e in parse_real(out) if e[0].startswith("r")]
+        if len(elems) != levels + 1:
+            fails.append(("[%s] re-entrant render: %d root elements, expected %d" % (mode, len(elems), levels + 1), "c14-reentrant-elements"))
+            continue
+        seen = set()
+        for mk, ids, echo in elems:
+            if len(ids) != 1 or echo not in ids:
+                fails.append(("[%s] re-entrant render: element %s carries ids %r but Component.id reported %r during that render" % (mode, mk, sorted(ids), echo), "c14-reentrant-echo"))
+                break
+            if echo in seen:
+                fails.append(("[%s] re-entrant render: id %r used by two instances" % (mode, echo), "c14-reentrant-collision"))
+                break
+            seen.add(echo)
+        if col is not None:
+            col.case(jhash(["reentrant", case, mode]), True, sample={"reentrant_levels": levels, "mode": mode, "how": case.get("how", 0)}, labels=("reentrant",))
+    env.reset()
     return fails
 
 
@@ -205,14 +266,24 @@ def plan(tier, seed, scale=1.0):
     specs = [{"kind": "main", "n": n // shards, "seed": derive_seed(seed, "c14", sh)} for sh in range(shards)]
     for d in b["depths"]:
         specs.append({"kind": "chain", "depth": d})
+    for d in b["loop_depths"]:
+        specs.append({"kind": "chain", "depth": d, "loops": True})
+    for lv in (1, 2, 3):
+        for how in (0, 1):
+            specs.append({"kind": "reentrant", "levels": lv, "how": how})
     specs.append({"kind": "randids", "n": max(20, n // 20), "seed": derive_seed(seed, "c14r", 0)})
     return specs
 
 
 def run_shard(spec):
     col = Collector()
+    if spec["kind"] == "reentrant":
+        case = {"kind": "reentrant", "levels": spec["levels"], "how": spec["how"]}
+        for m, b in check_reentrant(case, col):
+            col.fail(case, m, b)
+        return col
     if spec["kind"] == "chain":
-        case = {"kind": "chain", "depth": spec["depth"], "random_ids": True}
+        case = {"kind": "chain", "depth": spec["depth"], "random_ids": True, "loops": bool(spec.get("loops"))}
         for m, b in check_chain(case, col):
             col.fail(case, m, b)
         return col
@@ -234,6 +305,8 @@ def run_shard(spec):
 def replay(case):
     if case.get("kind") == "chain":
         return check_chain(case)
+    if case.get("kind") == "reentrant":
+        return check_reentrant(case)
     if case.get("random_ids"):
         env.patch_ids(False)
         try:
